@@ -317,6 +317,63 @@ Proof.
   - apply IH; [|exact Hr|exact Hl]. unfold is_node. now rewrite sna_node_ids.
 Qed.
 
+(* graph.nodes[n].pop(k, None) *)
+Lemma dna_seg st n k : seg (del_node_attr st n k) = seg st.
+Proof. unfold del_node_attr. now destruct (lookup n (nodes (g st))). Qed.
+Lemma dna_ft st n k : ft (del_node_attr st n k) = ft st.
+Proof. unfold del_node_attr. now destruct (lookup n (nodes (g st))). Qed.
+Lemma dna_succs st n k : succs (g (del_node_attr st n k)) = succs (g st).
+Proof. unfold del_node_attr. now destruct (lookup n (nodes (g st))). Qed.
+
+Lemma dna_node_ids st n k : node_ids (del_node_attr st n k) = node_ids st.
+Proof.
+  unfold del_node_attr, node_ids. destruct (lookup n (nodes (g st))) as [d|] eqn:E; [|reflexivity].
+  cbn. apply keys_set_in. eapply lookup_Some_keys; eauto.
+Qed.
+
+Lemma dna_attr st n k m k' :
+  attr (del_node_attr st n k) m k' = if (m =? n) && (k' =? k) && has_node st n then None else attr st m k'.
+Proof.
+  unfold del_node_attr, attr, node_attrs, has_node, haskey.
+  destruct (lookup n (nodes (g st))) as [d|] eqn:E; [|now rewrite andb_false_r].
+  cbn. rewrite andb_true_r. destruct (Z.eqb_spec m n) as [->|Hm]; cbn [andb].
+  - rewrite getd_set_eq. unfold getd. rewrite E. destruct (Z.eqb_spec k' k) as [->|Hk].
+    + apply lookup_del_eq.
+    + now apply lookup_del_neq.
+  - now rewrite getd_set_neq.
+Qed.
+
+Lemma dna_keep st n k : nodes_keep (eq k) st (del_node_attr st n k).
+Proof.
+  split; [apply dna_node_ids|]. intros m k' Hk. rewrite dna_attr.
+  destruct (Z.eqb_spec k' k) as [->|Hne]; [congruence|]. now rewrite andb_false_r.
+Qed.
+Lemma dna_graph_only st n k : graph_only st (del_node_attr st n k).
+Proof. split; [apply dna_seg|split; [apply dna_ft|apply dna_succs]]. Qed.
+
+(* UpdateNodeAttrs._apply: a None value removes the attribute, any other value is stored *)
+Lemma apply_attr_keep st n kv : nodes_keep (eq (fst kv)) st (apply_attr st n kv).
+Proof. unfold apply_attr. destruct (snd kv); first [apply dna_keep | apply sna_keep]. Qed.
+Lemma apply_attr_graph_only st n kv : graph_only st (apply_attr st n kv).
+Proof. unfold apply_attr. destruct (snd kv); first [apply dna_graph_only | apply sna_graph_only]. Qed.
+
+Definition apply_attrs (st : state) (n : Z) (a : attrs) : state :=
+  fold_left (fun s kv => apply_attr s n kv) a st.
+
+Lemma apply_attrs_graph_only st n a : graph_only st (apply_attrs st n a).
+Proof.
+  unfold apply_attrs. revert st; induction a as [|[k v] r IH]; intros st; cbn [fold_left]; [apply graph_only_refl|].
+  eapply graph_only_trans; [apply apply_attr_graph_only|apply IH].
+Qed.
+
+Lemma apply_attrs_keep st n a : nodes_keep (fun k => In k (keys a)) st (apply_attrs st n a).
+Proof.
+  unfold apply_attrs. revert st; induction a as [|[k v] r IH]; intros st; cbn [fold_left]; [apply nodes_keep_refl|].
+  eapply nodes_keep_trans.
+  - eapply nodes_keep_weaken; [|apply (apply_attr_keep st n (k, v))]. cbn. intros k' <-. now left.
+  - eapply nodes_keep_weaken; [|apply IH]. cbn. intros k' H. now right.
+Qed.
+
 (* for k in keys: graph.nodes[n][k] = v *)
 Definition set_keys (st : state) (n : Z) (ks : list Z) (v : value) : state :=
   fold_left (fun s k => set_node_attr s n k v) ks st.
@@ -802,8 +859,8 @@ Lemma upd_attrs_effect st n new : let s' := rstate (do_upd_attrs st n new) in
 Proof.
   unfold do_upd_attrs. destruct (existsb _ new) eqn:Ex; [cbn; split; [apply graph_only_refl|apply nodes_keep_refl]|].
   destruct (lookup n (nodes (g st))) as [d|].
-  - cbn [rstate]. fold (set_attrs st n new). split; [apply set_attrs_graph_only|].
-    eapply nodes_keep_weaken; [|apply set_attrs_keep]. cbn. intros k Hk. split; [exact Hk|].
+  - cbn [rstate]. fold (apply_attrs st n new). split; [apply apply_attrs_graph_only|].
+    eapply nodes_keep_weaken; [|apply apply_attrs_keep]. cbn. intros k Hk. split; [exact Hk|].
     unfold keys in Hk. apply in_map_iff in Hk. destruct Hk as (kv & <- & Hin).
     destruct (memz (fst kv) (protected_keys st)) eqn:E; [|reflexivity].
     assert (existsb (fun kv => memz (fst kv) (protected_keys st)) new = true) by (apply existsb_exists; eauto). congruence.
